@@ -964,3 +964,171 @@ theorem replace_parents (s : S) (p : Nat) (new : Str) (s' : S) (h : PlainCommitt
     rw [hsame]
 
 end Ccp.Edit
+
+/-! ### a blank payload under `ignore_blank_lines` -/
+
+namespace Ccp.Edit
+open Ccp.Py Ccp.Tree
+
+/-- **a blank line inserted under `ignore_blank_lines` is dropped by the auto-commit**: texts
+and tree are what they were -/
+theorem auto_insert_blank_noop (s : S) (c : Nat) (txt : Str) (st : Bool) (h : PlainCommitted s)
+    (hi : s.cfg.ignoreBlank = true) (hbl : isBlank txt = true)
+    (hb : isBannerStart txt = false) (hm : s.cfg.ios = true → isMacroStart txt = false) :
+    let s' := autoCommit { s with items := s.items.take c ++ fresh txt :: s.items.drop c, stale := st, dirty := true }
+    s'.texts = s.texts ∧ s'.tree = s.tree := by
+  intro s'
+  obtain ⟨htree, _, _⟩ := h.fresh h.clean
+  have hnb := fresh_nonblank s h.clean h.fresh h.plain hi
+  have hit := items_insert_texts s c txt
+  have hp' := plain_insert s.cfg s.texts c txt h.plain hb hm
+  have hfil : (s.texts.take c ++ txt :: s.texts.drop c).filter nonBlank = s.texts := by
+    have h1 : (s.texts.take c).filter nonBlank = s.texts.take c :=
+      List.filter_eq_self.mpr (fun x hx => hnb x (List.mem_of_mem_take hx))
+    have h2 : (s.texts.drop c).filter nonBlank = s.texts.drop c :=
+      List.filter_eq_self.mpr (fun x hx => hnb x (List.mem_of_mem_drop hx))
+    have h3 : nonBlank txt = false := by rw [nonBlank_eq, hbl]; rfl
+    rw [List.filter_append, List.filter_cons, h3, h1, h2]
+    simp
+  have hparse : parse s.cfg (s.texts.take c ++ txt :: s.texts.drop c) = s.tree := by
+    rw [parse_ignore_plain s.cfg _ hi hp', hfil, htree, parse_noIg s.cfg s.texts h.plain (fun _ => hnb)]
+  have ht : s'.tree = s.tree := by
+    show (autoCommit _).tree = _
+    rw [auto_tree_after s h.auto, hit, hparse]
+  refine ⟨?_, ht⟩
+  show (autoCommit _).texts = _
+  rw [autoCommit_on { s with items := s.items.take c ++ fresh txt :: s.items.drop c, stale := st, dirty := true } h.auto,
+    commit_texts]
+  show (bootstrap s.cfg ((s.items.take c ++ fresh txt :: s.items.drop c).map Item.text)).texts = _
+  rw [hit, ← parse_eq_bootstrap, hparse, htree, parse_texts' s.cfg s.texts h.plain (fun _ => hnb)]
+
+end Ccp.Edit
+
+/-! ### the children of the target of a successful child-level append -/
+
+namespace Ccp.Edit
+open Ccp.Py Ccp.Tree
+
+theorem cfi_some_mod (w si : Nat) (txt : Str) (a : Int) (h : cfi w si txt = some a) :
+    w ≠ 0 ∧ indent txt % w = 0 := by
+  unfold cfi at h
+  dsimp only at h
+  split at h
+  · cases h
+  · rename_i hw
+    split at h
+    · cases h
+    · rename_i hm
+      exact ⟨hw, by simpa using hm⟩
+
+/-- a payload classified one level below a target whose indent is a multiple of the width is
+indented exactly one width deeper -/
+theorem cfi_one_eq (w si : Nat) (txt : Str) (h : cfi w si txt = some 1) (hs : si % w = 0) :
+    indent txt = si + w := by
+  have hlt := cfi_one_lt w si txt h
+  obtain ⟨hw, hm⟩ := cfi_some_mod w si txt 1 h
+  unfold cfi at h
+  dsimp only at h
+  rw [if_neg hw] at h
+  have hm' : ¬ ((indent txt % w != 0) = true) := by simp [hm]
+  rw [if_neg hm', if_neg (by omega)] at h
+  injection h with h
+  have hcast : ((indent txt : Int) - (si : Int)) = ((indent txt - si : Nat) : Int) := by omega
+  rw [hcast] at h
+  have hd : (indent txt - si) / w = 1 := by
+    have : (((indent txt - si) / w : Nat) : Int) = 1 := h
+    exact_mod_cast this
+  have hmod : (indent txt - si) % w = 0 := by
+    have := Nat.sub_mod_eq_zero_of_mod_eq (show indent txt % w = si % w by omega)
+    exact this
+  have := Nat.div_add_mod (indent txt - si) w
+  rw [hd, hmod] at this
+  omega
+
+/-- a successful child-level append to a target with children classified the target's last
+child and the target itself: both are indented on a multiple of the width -/
+theorem appendIndex_child_level_cfi (t : T) (w self : Nat) (s : Str) (idx : Nat)
+    (hk : children t self ≠ []) (h : appendIndex t w self s = .ok idx)
+    (h0 : cfi w (indentOf t self) s ≠ some 0) :
+    (∃ a, cfi w (indentOf t self) (t.texts.getD ((children t self).getLast?.getD self) []) = some a) ∧
+    (∃ b, cfi w (indentOf t self) (t.texts.getD self []) = some b) := by
+  unfold appendIndex at h
+  dsimp only at h
+  rw [if_neg (by simpa using hk)] at h
+  split at h
+  · rename_i c ifi hc hifi
+    refine ⟨⟨c, hc⟩, ?_⟩
+    split at h
+    · rename_i hz; rw [hifi, hz] at h0; exact absurd rfl h0
+    · split at h
+      · cases h
+      · rename_i selfc hselfc
+        exact ⟨selfc, hselfc⟩
+  · cases h
+
+/-- **the hypothesis on the children of `appendToFamily_keeps_parents` is automatic**, for
+every indent width: when a child-level append to a target with children succeeds, every
+configuration-line child of the target is indented at least as deep as the payload (the code
+classifies the last child and the target against the width, and the children of a line are
+indented in non-increasing order) -/
+theorem appendToFamily_children_deep (s : S) (i : Nat) (txt' : Str) (idx : Nat) (hc : PlainCommitted s)
+    (hk : children s.tree i ≠ []) (h4 : appendIndex s.tree s.width i txt' = .ok idx)
+    (h0 : cfi s.width (indentOf s.tree i) txt' ≠ some 0) :
+    ∀ c, c ∈ children s.tree i → isConfigLine s.cfg (s.texts.getD c []) = true →
+      indent txt' ≤ indent (s.texts.getD c []) := by
+  intro c hcm hcc
+  obtain ⟨htree, htexts, _⟩ := hc.fresh hc.clean
+  have hnb : s.cfg.ignoreBlank = true → ∀ x ∈ s.texts, nonBlank x = true :=
+    fresh_nonblank s hc.clean hc.fresh hc.plain
+  have hst : SpecTree s.tree (s.texts.map (info s.cfg)) := by
+    rw [htree]; exact parse_specTree' s.cfg s.texts hc.plain hnb
+  obtain ⟨⟨a, ha⟩, ⟨b, hb⟩⟩ := appendIndex_child_level_cfi _ _ _ _ idx hk h4 h0
+  have h1 := (appendIndex_child_level _ _ _ _ idx hk h4 h0).2
+  rw [← htexts] at ha hb
+  have hio : indentOf s.tree i = indent (s.texts.getD i []) := by rw [indentOf, ← htexts]
+  obtain ⟨hw, hka⟩ := cfi_some_mod _ _ _ _ ha
+  obtain ⟨_, hsi⟩ := cfi_some_mod _ _ _ _ hb
+  have hx : indent txt' = indentOf s.tree i + s.width := cfi_one_eq _ _ _ h1 (by rw [hio]; exact hsi)
+  -- the last child
+  obtain ⟨k, hkl⟩ : ∃ k, (children s.tree i).getLast? = some k := by
+    cases hl : (children s.tree i).getLast? with
+    | none => exact absurd (List.getLast?_eq_none_iff.mp hl) hk
+    | some k => exact ⟨k, rfl⟩
+  rw [hkl] at hka
+  simp only [Option.getD_some] at hka
+  have hkm : k ∈ children s.tree i := List.mem_of_getLast? hkl
+  have hck : c ≤ k := (getLast?_sorted_max (children_sorted s.tree i) hkl).2 c hcm
+  have g : ∀ (j : Nat) (l : Info), (s.texts.map (info s.cfg))[j]? = some l → l = info s.cfg (s.texts.getD j []) := by
+    intro j l hl
+    have hj : j < s.texts.length := by simpa using (List.getElem?_eq_some_iff.mp hl).1
+    rw [info_getD s.cfg s.texts j hj] at hl; cases hl; rfl
+  -- the last child is deeper than the target, on a multiple of the width: at least one width deeper
+  obtain ⟨hks, hpk, hki⟩ := mem_children.mp hkm
+  obtain ⟨lp, lk, e1, e2, _, _, e5, e6⟩ := specTree_parent hst hks (by omega)
+  rw [hpk] at e1 e6
+  rw [g i lp e1, g k lk e2] at e5
+  have e5' : indent (s.texts.getD i []) < indent (s.texts.getD k []) := e5
+  have hkdeep : indentOf s.tree i + s.width ≤ indent (s.texts.getD k []) := by
+    rw [hio]
+    have hd := Nat.div_add_mod (indent (s.texts.getD k [])) s.width
+    have hd' := Nat.div_add_mod (indent (s.texts.getD i [])) s.width
+    rw [hka] at hd; rw [hsi] at hd'
+    have : indent (s.texts.getD i []) / s.width < indent (s.texts.getD k []) / s.width := by
+      apply Classical.byContradiction; intro hn
+      have := Nat.mul_le_mul_left s.width (Nat.le_of_not_lt hn)
+      omega
+    have := Nat.mul_le_mul_left s.width (Nat.succ_le_of_lt this)
+    rw [Nat.mul_succ] at this
+    omega
+  -- an earlier configuration-line child is at least as deep as the last one
+  by_cases hckeq : c = k
+  · subst hckeq; omega
+  · obtain ⟨hcs, hpc, hci⟩ := mem_children.mp hcm
+    have hcl := info_getD s.cfg s.texts c (by rw [← hst.2.1] at hcs; simpa using hcs)
+    have hic : i < c := by have := parentOf_le_of_forest hst.1 c; omega
+    have := ((nearestShallower_eq_some _ _ _ _).mp e6).2.2 c _ (by omega) (by omega) hcl
+    rw [g k lk e2] at this
+    have hnl : ¬ indent (s.texts.getD c []) < indent (s.texts.getD k []) := fun hh => this ⟨hcc, hh⟩
+    omega
+
+end Ccp.Edit
